@@ -1,6 +1,6 @@
 \* core level, spec -> code (thorough)
 CONSTANTS
-  Cores <- CoresThorough
+  Cores <- CoresQuick
   Designs <- NoTriples
   Growths <- G3
   MaxNonUnit = 1
